@@ -211,7 +211,7 @@ fn check_family(r: &mut Report, driver: &str, e: &Expr, runner: &mut proptest::t
 // ---------------------------------------------------------------------------------------
 // (2) random statement-level trees over the whole grammar (syntactic, not necessarily well-typed)
 
-const IDENTS: [&str; 12] = ["a", "b", "x", "lijst", "alsof", "stopt", "ja_", "_nee", "één", "functie2", "zolang_", "f"];
+pub const IDENTS: [&str; 12] = ["a", "b", "x", "lijst", "alsof", "stopt", "ja_", "_nee", "één", "functie2", "zolang_", "f"];
 const STRS: [&str; 10] = ["", "a", "hallo wereld", "é€", "{}", "// geen opmerking", "a;b", "(", "stel x = 1", "𝄞"];
 
 struct SynGen<'a, 'b> {
@@ -358,7 +358,7 @@ impl<'a, 'b> SynGen<'a, 'b> {
     }
 }
 
-fn gen_syntax(tape: &[u8]) -> (BlockStmt, usize) {
+pub fn gen_syntax(tape: &[u8]) -> (BlockStmt, usize) {
     let mut t = Tape::new(tape);
     let mut g = SynGen { t: &mut t, nodes: 0 };
     let n = 1 + g.t.below(5);
